@@ -938,6 +938,7 @@ def check_prefix(case, ctx):
         outs, err = tr.outs[k], tr.errs[k]
         seq.append(show(err, 80) if err is not None else show(outs[0], 120) if len(outs) == 1 else '<%d values>' % len(outs))
     compared, cum = 0, 0
+    prev_keys, ever_keys = set(), set()
     drop_zero = op['agg'] == 'value_counts'
     for k in range(len(batches)):
         cum += lens[k]
@@ -962,6 +963,7 @@ def check_prefix(case, ctx):
                   + ('_' + ('col' if op['by'][0] == 'col' else 'ser') if fam in ('gb', 'wgb') else '')
                   + ('_' + op['win'][0] if op.get('win') else ''))
         ctx.count('cmp_on_' + shape_of(targets[0]))
+        ctx.count('cmp_agg_' + op['agg'])
         if 'nan' in cls:
             ctx.count('cmp_with_nan')
         if 'empty-first-batch' in cls:
@@ -970,6 +972,11 @@ def check_prefix(case, ctx):
             ctx.count('cmp_after_empty_batch')
         if fam == 'wgb':
             ctx.count('window_group_keys_checked', len(exp))
+            cur = set(_labels(exp.index))
+            ctx.count('window_group_key_left', len(prev_keys - cur))
+            ctx.count('window_group_key_reentered', len((cur - prev_keys) & (ever_keys - prev_keys)))
+            ever_keys |= cur
+            prev_keys = cur
         if lens[k] > 0:
             compared += 1
         head = '%s, input class %s, example %s%s: batches %s' % (
@@ -992,26 +999,38 @@ def check_prefix(case, ctx):
     return compared
 
 
-def _check_expr(case, ctx, batches, tr):
-    op = case['op']
-    top = _expr_top(op['tree'])
-    ctx.note('aggregations', 'expr.' + top)
-    _note_nodes(op['tree'], ctx)
+NODE_TYPES = {'root', 'const', 'col', 'bin', 'un', 'map', 'round', 'astype', 'mp', 'filter', 'select', 'assign', 'setitem',
+              'setitemf', 'query', 'reset_index', 'tail', 'to_frame', 'index', 'dict'}
+
+
+def subtrees(tree):
+    """post-order: every operand sub-expression before the expression itself"""
+    if isinstance(tree, list):
+        is_node = bool(tree) and isinstance(tree[0], str) and tree[0] in NODE_TYPES
+        for c in (tree[1:] if is_node else tree):
+            for t in subtrees(c):
+                yield t
+        if is_node:
+            yield tree
+
+
+def _expr_failures(op, tab, batches, tr):
+    """-> (failures [(clause, text)], compared non-empty batches, stats dict) for one expression pipeline run"""
+    fails, compared, st = [], 0, {'cmp': 0, 'empty': 0, 'both_raised': 0}
     if tr.build_error is not None:
         try:
             with warnings.catch_warnings(), np.errstate(all='ignore'):
                 warnings.simplefilter('ignore')
-                ev(op['tree'], p_root(op, example_df(case['tab'], 'rows')), False)
+                ev(op['tree'], p_root(op, example_df(tab, 'rows')), False)
             perr = None
         except Exception as e:                         # noqa: BLE001
             perr = e
         if perr is None:
-            ctx.violate('build-exception@expr.%s' % top, 'building %s raised %r; pandas evaluates it on the example'
-                        % (json.dumps(op['tree']), tr.build_error), case)
+            fails.append(('build-exception', 'building %s raised %r; pandas evaluates it on the example'
+                          % (json.dumps(op['tree']), tr.build_error)))
         else:
-            ctx.count('expr_rejected_by_pandas_too')
-        return 0
-    compared = 0
+            st['rejected_by_pandas_too'] = 1
+        return fails, 0, st
     for k, b in enumerate(batches):
         pb = p_root(op, b)
         try:
@@ -1021,43 +1040,63 @@ def _check_expr(case, ctx, batches, tr):
         except Exception as e:                         # noqa: BLE001
             exp, perr = None, e
         outs, err = tr.outs[k], tr.errs[k]
-        ctx.count('cmp_total')
-        ctx.count('cmp_elementwise')
+        st['cmp'] += 1
         if len(pb) == 0:
-            ctx.count('cmp_elementwise_empty_batch')
+            st['empty'] += 1
         head = 'expression %s%s on batch %d = %s' % (json.dumps(op['tree']), ' after filter %s' % (op['pre'],) if op.get('pre') else '',
                                                      k + 1, show(pb))
         if perr is not None and err is not None:
-            ctx.count('expr_both_raised')
+            st['both_raised'] += 1
+        elif err is not None:
+            fails.append(('exception', '%s: streamz raised %r, pandas gives %s' % (head, err, show(exp))))
+        elif perr is not None:
+            fails.append(('no-exception', '%s: pandas raises %r, streamz emitted %s' % (head, perr, [show(o) for o in outs])))
+        elif len(outs) != 1:
+            fails.append(('no-value' if not outs else 'several-values', '%s: %d values emitted' % (head, len(outs))))
+        else:
+            if len(pb):
+                compared += 1
+            d = compare(outs[0], exp, ordered=True)
+            if d is not None:
+                fails.append((d[0], '%s: emitted %s, pandas gives %s (%s)' % (head, show(outs[0]), show(exp), d[1])))
+    return fails, compared, st
+
+
+def _check_expr(case, ctx, batches, tr):
+    """per-batch oracle for expression trees; a failure is attributed to the SMALLEST failing sub-expression
+    (each sub-expression is run as its own real pipeline), so the key names the operation, not the enclosing tree"""
+    op = case['op']
+    ctx.note('aggregations', 'expr.' + _expr_top(op['tree']))
+    for t in subtrees(op['tree']):
+        if t[0] != 'const':
+            ctx.note('expr_nodes', _expr_top(t))
+    fails, compared, st = _expr_failures(op, case['tab'], batches, tr)
+    ctx.count('cmp_total', st['cmp'])
+    ctx.count('cmp_elementwise', st['cmp'])
+    ctx.count('cmp_elementwise_empty_batch', st['empty'])
+    ctx.count('expr_both_raised', st['both_raised'])
+    ctx.count('expr_rejected_by_pandas_too', st.get('rejected_by_pandas_too', 0))
+    if not fails:
+        return compared
+    where, wfails = op['tree'], fails
+    for sub in subtrees(op['tree']):
+        if sub[0] in ('root', 'const') or sub is op['tree']:
             continue
-        if err is not None:
-            ctx.violate('exception@expr.%s' % top, '%s: streamz raised %r, pandas gives %s' % (head, err, show(exp)), case)
-            continue
-        if perr is not None:
-            ctx.violate('no-exception@expr.%s' % top, '%s: pandas raises %r, streamz emitted %s' % (head, perr, [show(o) for o in outs]), case)
-            continue
-        if len(outs) != 1:
-            ctx.violate('%s@expr.%s' % ('no-value' if not outs else 'several-values', top), '%s: %d values emitted' % (head, len(outs)), case)
-            continue
-        if len(pb):
-            compared += 1
-        d = compare(outs[0], exp, ordered=True)
-        if d is not None:
-            ctx.violate('%s@expr.%s' % (d[0], top), '%s: emitted %s, pandas gives %s (%s)' % (head, show(outs[0]), show(exp), d[1]), case)
+        sop = dict(op, tree=sub)
+        str_ = run_pipeline(sop, example_df(case['tab'], case.get('ex', 'rows')), batches)
+        if str_.build_error is not None and case.get('ex') == 'empty':
+            str_ = run_pipeline(sop, example_df(case['tab'], 'rows'), batches)
+        sf, _, _ = _expr_failures(sop, case['tab'], batches, str_)
+        if sf:
+            where, wfails = sub, sf
+            break
+    seen = set()
+    for clause, text in wfails:
+        if clause not in seen:
+            seen.add(clause)
+            ctx.violate('%s@expr.%s' % (clause, _expr_top(where)),
+                        text + ('' if where is op['tree'] else ' [smallest failing sub-expression of %s]' % json.dumps(op['tree'])), case)
     return compared
-
-
-def _note_nodes(tree, ctx):
-    if isinstance(tree, list) and tree and isinstance(tree[0], str):
-        if tree[0] in ('bin', 'un', 'mp', 'map'):
-            ctx.note('expr_nodes', '%s %s' % (tree[0], tree[1]))
-        elif tree[0] not in ('const',):
-            ctx.note('expr_nodes', tree[0])
-        for c in tree[1:]:
-            _note_nodes(c, ctx)
-    elif isinstance(tree, list):
-        for c in tree:
-            _note_nodes(c, ctx)
 
 
 def drive(pid, seed, tier, shard, nshards, gen_cases, check, nontrivial_min=2, sample_fn=None):
@@ -1068,10 +1107,9 @@ def drive(pid, seed, tier, shard, nshards, gen_cases, check, nontrivial_min=2, s
     keys, samples, n = [], [], 0
     for case in gen_cases(rng):
         n += 1
-        nv = sum(len(v) for v in ctx.viol.values())
         compared = check(case, ctx)
         if compared >= nontrivial_min:
             keys.append(case_key(case))
-            if len(samples) < 2 and sum(len(v) for v in ctx.viol.values()) == nv and sample_fn is not None:
+            if len(samples) < 2 and not ctx.case_seen and sample_fn is not None:     # a case that held
                 samples.append(sample_fn(case, compared))
     return ctx.result(n, keys, samples)
